@@ -72,6 +72,19 @@ def desugar(loc, relfile, fn_paths, rules):
                     rewrites.append((v["call"][0], v["call"][1], new))
                     records.append({"fn": fp, "rule": "D3 X.iter().filter(|p| C).copied().collect::<Vec<_>>()  =>  { let mut out = Vec::new(); for p in X.iter() { if C { out.push(*p); } } out }",
                                     "original": src[v["call"][0]:v["call"][1]], "rewritten": new})
+                elif v["rule"] == "D13":
+                    recv = src[v["recv"][0]:v["recv"][1]]
+                    pat = src[v["pat"][0]:v["pat"][1]]
+                    body = src[v["body"][0]:v["body"][1]]
+                    if pat.startswith("&") and re.fullmatch(r"&\s*[A-Za-z_][A-Za-z_0-9]*", pat):
+                        # `|&x|` (a dereferencing pattern, which Verus does not accept) binds a copy
+                        new = ("match " + recv + " { Some(pv_ref) => { let " + pat[1:].strip() + " = *pv_ref; Some(" + body
+                               + ") }, None => None }")
+                    else:
+                        new = "match " + recv + " { Some(" + pat + ") => Some(" + body + "), None => None }"
+                    rewrites.append((v["call"][0], v["call"][1], new))
+                    records.append({"fn": fp, "rule": "D13 OPT.map(|p| B)  =>  match OPT { Some(p) => Some(B), None => None }",
+                                    "original": src[v["call"][0]:v["call"][1]], "rewritten": new})
                 elif v["rule"] == "D12":
                     recv = src[v["recv"][0]:v["recv"][1]]
                     pat = src[v["pat"][0]:v["pat"][1]]
